@@ -214,6 +214,10 @@ def _store(res, out):
 
 
 def _sqrt(x, *a, out=None, **k):
+    if SYM and isinstance(x, float) and x > 0 and out is None:
+        # a float constant under a root (sqrt(2 / 3), sqrt(0.2)): the exact algebraic number it denotes (A4)
+        INVENTORY.add("sqrt(float constant) -> exact root")
+        return co(x).sqrt()
     if not _isobj(x):
         return _np.sqrt(x, *a, out=out, **k)
     if isinstance(x, LP):
@@ -399,10 +403,14 @@ def bind(prefix="felupe"):
             if getattr(mod, "erf", None) is _sp.erf:
                 mod.erf = _erf
                 _bound_erf.append(mod)
+            if getattr(mod, "sqrt", None) is _np.sqrt:
+                mod.sqrt = _sqrt
+                _bound_sqrt.append(mod)
     return n
 
 
 _bound_erf: list = []
+_bound_sqrt: list = []
 
 
 def unbind():
@@ -412,8 +420,11 @@ def unbind():
         m.np = _np
     for m in _bound_erf:
         m.erf = _sp.erf
+    for m in _bound_sqrt:
+        m.sqrt = _np.sqrt
     _bound.clear()
     _bound_erf.clear()
+    _bound_sqrt.clear()
 
 
 class symbolic:
